@@ -291,3 +291,42 @@ def run_loud(P, rep, rule="R-LOUD.partials"):
                     rep.viol(rule, site + " get", P.where(fn, line), "partial lookup error is not propagated: " + what)
             else:
                 rep.ok(rule, site + " get", P.where(fn, t["line"]), "PartialStore::get(..)? — error returned to the caller")
+
+
+STRING_TRANSFORMS = ("replace", "to_lowercase", "to_uppercase", "trim", "trim_start", "trim_end", "trim_matches", "trim_end_matches",
+                     "trim_start_matches", "strip_prefix", "strip_suffix", "to_ascii_lowercase", "to_ascii_uppercase", "split", "rsplit",
+                     "chars", "nfc", "nfkc", "normalize", "canonicalize", "file_name", "file_stem", "with_extension")
+
+
+def run_source_keyed(P, rep, rule="R-KEYED.source"):
+    """The in-memory partial source stores and looks names up verbatim: what names() lists is exactly what contains/try_get accept
+    (an eager store keyed by names() and a lazy store that asks the source must agree)."""
+    IM = "liquid_core::partials::inmemory::InMemorySource"
+    fns = []
+    for fn in P.fns.values():
+        if fn.impl and fn.kind == "method":
+            tj = P.ty(fn.crate, fn.impl["self"])
+            if tj["k"] == "adt" and tj["id"] == IM and fn.item_name in ("contains", "try_get", "get", "add", "names"):
+                fns.append(fn)
+    if len(fns) < 4:
+        rep.anchor_missing(rule, "InMemorySource methods (found %d)" % len(fns))
+        return
+    for fn in sorted(fns, key=lambda f: f.item_name):
+        bad = []
+        from origins import SelfOrigins
+        for body, _ in SelfOrigins(P, fn, seed={}).all_bodies():
+            for bi, t in P.calls(body):
+                f = t.get("f")
+                if not f:
+                    continue
+                last = f["id"].rsplit("::", 1)[1]
+                if f["krate"].startswith("liquid") and not f.get("trait") and last not in ("new", "default"):
+                    bad.append(f["name"])
+                elif last in STRING_TRANSFORMS and fn.item_name != "names":
+                    bad.append(f["name"])
+        site = "InMemorySource::" + fn.item_name
+        if bad:
+            rep.viol(rule, site, P.where(fn), "partial names pass through %s: the names the source lists, stores and accepts can differ, so the compilation policies "
+                     "(exact-keyed eager store vs. source-backed lazy/on-demand) no longer agree" % sorted(set(bad)))
+        else:
+            rep.ok(rule, site, P.where(fn), "name used verbatim")
